@@ -279,6 +279,17 @@ def oracle_scaling(case):
         fails.append({'what': 'quantile does not scale by c', 'c': c, 'original': q, 'rescaled': qb})
     if not relv(ca, cb, 0, 1e-9):
         fails.append({'what': 'cdf(c t) of the rescaled model differs from cdf(t)', 'c': c, 'original': ca.tolist(), 'rescaled': cb.tolist()})
+    # the spectrum (block-counting representation: its merger rates carry the time scale on their own)
+    if spec.get('loci', 1) == 1:
+        h_s = build.capture()
+        sa_, sb_ = np.array(a.sfs.mean.data, dtype=float), np.array(b.sfs.mean.data, dtype=float)
+        va_, vb_ = np.array(a.sfs.var.data, dtype=float), np.array(b.sfs.var.data, dtype=float)
+        if not noisy(h_s):
+            n += 2
+            if not relv(sa_ * c, sb_, 1e-9, 1e-300):
+                fails.append({'what': 'expected spectrum does not scale by c', 'c': c, 'original': sa_.tolist(), 'rescaled': sb_.tolist()})
+            if not relv(va_ * c * c, vb_, 1e-8, 1e-300):
+                fails.append({'what': 'variances of the spectrum do not scale by c^2', 'c': c, 'original': va_.tolist(), 'rescaled': vb_.tolist()})
     # the same law on objects that were first asked for the distribution function beyond their last change point (the default
     # horizon of the moments is searched afterwards: it must be that of the whole demography, at every scale)
     bs_ = sorted({float(t) for dd in (spec.get('pop_sizes') or {}).values() if isinstance(dd, dict) for t in dd} |
